@@ -31,11 +31,23 @@ static std::string datastr( const char* d, size_t n )
     return "len:" + std::to_string( n ) + ":fnv:" + std::to_string( fnv( d, n ) );
 }
 
-// a compression interface that is never asked to do anything (no SHF_COMPRESSED sections here)
+// a compression interface whose deflate is the identity (so the saved bytes are those of the model, which has no
+// compression hook) and counts its calls: `save` reports the count behind " ~~ " - implementation-only text that the
+// correspondence ignores and the value-semantics oracle compares between an object and its never-moved twin.
+// inflate declines (nullptr => the loader keeps the data as read).
+static int g_deflate_calls = 0;
 struct null_compression : compression_interface
 {
     std::unique_ptr<char[]> inflate( const char*, const endianness_convertor*, Elf_Xword, Elf_Xword& ) const override { return nullptr; }
-    std::unique_ptr<char[]> deflate( const char*, const endianness_convertor*, Elf_Xword, Elf_Xword& ) const override { return nullptr; }
+    std::unique_ptr<char[]> deflate( const char* d, const endianness_convertor*, Elf_Xword n, Elf_Xword& out_n ) const override
+    {
+        ++g_deflate_calls;
+        std::unique_ptr<char[]> r( new char[(size_t)n + 1] );
+        if ( d && n )
+            memcpy( r.get(), d, (size_t)n );
+        out_n = d ? n : 0;
+        return r;
+    }
 };
 
 static std::string hdr_line( elfio& e )
@@ -307,8 +319,10 @@ static void run_case( const std::vector<Toks>& ops, FILE* out )
             }
             else if ( op == "save" ) {
                 std::ostringstream os;
+                g_deflate_calls      = 0;
                 bool               r = e->save( os );
-                res = std::string( "save=" ) + ( r ? "true" : "false" ) + " bytes=" + hex( os.str() );
+                res = std::string( "save=" ) + ( r ? "true" : "false" ) + " bytes=" + hex( os.str() ) +
+                      " ~~ deflate=" + std::to_string( g_deflate_calls );
             }
             else if ( op == "ed" && t.size() >= 3 ) {
                 // an object without header (moved-from, not re-initialised) is not edited
